@@ -489,6 +489,7 @@ def run_nonmultiple(sc):
         spec = M.new_spec(desc)
         stage = 'parse'
         M.api('parse', spec.parse)
+        M._late_config(spec)      # (run environment late_config: the configuration is issued after parse())
         if mode == 'pastified':
             stage = 'pastify'
             M.api('pastify', spec.pastify)
